@@ -260,6 +260,11 @@ def interval_of(facts, var):
     NEG = {"Lt": "Ge", "Le": "Gt", "Gt": "Le", "Ge": "Lt", "Eq": "Ne", "Ne": "Eq"}
     for (e, tr, g) in facts:
         if not isinstance(tr, bool):
+            # `x.checked_sub(N)` is Some exactly when x >= N
+            mcs = re.fullmatch(r"discr\(core::num::<impl u\d+>::checked_sub\((.*),c:(\d+)\)\)", e)
+            if mcs and is_var(mcs.group(1)) and tr in (("==", 1), ("==", 0)):
+                upd("Ge" if tr[1] == 1 else "Lt", int(mcs.group(2)))
+                continue
             if is_var(e) and tr[0] in ("==", "!="):
                 upd("Eq" if tr[0] == "==" else "Ne", tr[1])
             elif is_var(e) and tr[0] == "in":
@@ -446,3 +451,20 @@ def exceeds_facts(facts):
         elif op == "Ge":
             out.append((x, n - 1, g))
     return out
+
+
+def unit_calls(prog, f, S=None):
+    """symcalls of f plus the calls inside the closures f builds, their arguments rewritten into f's terms (lifted):
+    [(block in f (the combinator call for closure-internal calls), callee, [args], term, Lifted or None)]"""
+    from .sym import Sym
+    S = S or Sym(prog, f)
+    out = [(b, n, a, t, None) for (b, n, a, t) in symcalls(prog, f, S)]
+    for L in lifted_closures(prog, f, S):
+        for b, t in L.fn.calls():
+            out.append((L.call_block if L.call_block is not None else L.site_block, cname(prog, t), [L.val(a) for a in t["args"]], t, L))
+    return out
+
+
+def nz(x):
+    """strip leading reference/deref marks of a symbolic value"""
+    return x.lstrip("&*")
